@@ -724,6 +724,11 @@ pub fn run<P: Property>(prop: P, tier: Tier, seed: u64) -> RunResult {
                                     }
                                     Ok(())
                                 }
+                                Err(f) if f.sig.starts_with("inconclusive/") => {
+                                    // environment trouble (watchdog, pty exhaustion ...): never a violation
+                                    eprintln!("INCONCLUSIVE: {}: {}", f.sig, f.msg);
+                                    std::process::exit(2);
+                                }
                                 Err(f) => {
                                     if counting {
                                         local.evaluations += 1;
